@@ -57,6 +57,16 @@ Theorem C20_gate_refuses_get_project_legacy : forall root cwd path v,
 Proof. exact gate_get_project_legacy. Qed.
 Print Assumptions C20_gate_refuses_get_project_legacy.
 
+(* the same from anywhere BELOW the legacy project, under every spelling of the path (the search runs on
+   abspath cwd path): d = the first directory, iterating dirname, that holds a readable legacy config *)
+Theorem C20_gate_refuses_get_project_legacy_below : forall root cwd path d v,
+  os_exists root cwd path = true -> no_cfg_above root cwd (abspath cwd path) ->
+  nearest_legacy root cwd (abspath cwd path) d ->
+  get_version root cwd d SCHEMA = Some v -> v <> SCHEMA ->
+  get_project root cwd path true = (Err EIncompatibleSchemaVersion, root).
+Proof. exact gate_get_project_legacy_below. Qed.
+Print Assumptions C20_gate_refuses_get_project_legacy_below.
+
 (* get_project(search=False) on a legacy project (fix 7826961): IncompatibleSchemaVersion too *)
 Theorem C20_gate_refuses_get_project_nosearch_legacy : forall root cwd path v,
   os_exists root cwd path = true -> cfg_at root cwd path = false ->
